@@ -459,6 +459,11 @@ def gen_plan(seed, tier):
         plan['cost2'] = gen.gen_cost(rng, dim, ['quad', 'rosen', 'abs', 'flat', 'tied'])
         plan['x02'] = gen.gen_x0(rng, dim)
         plan['order'] = [rng.randrange(2) for _ in range(2 * plan['limits'][0])]
+    r6 = sub_rng(seed, 'plan.c11.twice')
+    if plan['mode'] in ('solve', 'manual', 'manual_collapsed') and r6.random() < 0.15 and not big:
+        plan['twice'] = True
+        plan['cost2'] = gen.gen_cost(r6, dim, ['quad', 'flat', 'tied', 'flat', 'tied'])
+        plan['x02'] = gen.gen_x0(r6, dim)
     r5 = sub_rng(seed, 'plan.c11.late')
     if plan['mode'] in ('solve', 'manual', 'manual_collapsed') and r5.random() < 0.2:
         plan['late'] = r5.randint(2, 12); plan['save'] = False
@@ -1013,6 +1018,12 @@ def run_plan(plan):
                 h.violate(ID, 'solve_did_not_return', detail=str(e), collapses=orc.n_applied)
             if plan.get('save') and plan['kind'] == 'solver':
                 restored_state(h, orc, run)
+            if plan.get('twice') and plan['kind'] == 'solver':
+                h.finish(); h.oracles = []          # the first solver's run is judged here: what follows are another solver's evaluations
+                try:
+                    run_second(plan, run, h)
+                except env.SimHang as e:
+                    h.violate(ID, 'solve_did_not_return', detail='second solver: ' + str(e), second=True)
             viol = h.finish()
             final = h.snap()
     finally:
@@ -1051,6 +1062,37 @@ def run_shared(plan, run, h, orc):
         r = hh.do({'op': 'step', 'n': 1})
         if r.get('exc') or (r.get('ret') or (None,))[-1]: done[who] = True
     run.on_callback = h._on_callback; run.pre_step = h._pre_step
+    h.violations.extend(h2.violations)
+
+
+def run_second(plan, run, h):
+    """a second solver later in the same program: another objective and start, its own conditions -- built separately, textually
+    identical to the first solver's, masks included.  What it reports, applies and masks is judged exactly like the first one's"""
+    plan2 = dict(plan); plan2['cost'] = plan['cost2']; plan2['detectors'] = []
+    orc2 = CollapseOracle(plan2)
+    h2 = H11(run, plan2, [orc2])
+    import mystic.solvers as ms
+    cls = getattr(ms, engine.SOLVERS[plan['solver']])
+    s2 = cls(plan['dim'], plan.get('npop', 4)) if plan['solver'] in ('DE', 'DE2') else cls(plan['dim'])
+    h2.solvers['orig'] = s2
+    h2.cost = env.SimCost(plan2['cost'])
+    h2.tags.update(solver=plan['solver'], cost=plan2['cost']['model'], second=True)
+    if plan['solver'] in ('DE', 'DE2'): s2.SetRandomInitialPoints([-3.0] * plan['dim'], [3.0] * plan['dim'])
+    else: s2.SetInitialPoints(list(plan['x02']))
+    s2.SetTermination(build_cond(plan['tree']))
+    s2.SetEvaluationLimits(plan['limits'][0], plan['limits'][1])
+    orc2.wrap(h2)
+    run.probe('c11.second_solver_runs')
+    run.on_callback = h2._on_callback; run.pre_step = h2._pre_step
+    run.owner = 'second'
+    try:
+        r = h2.do({'op': 'solve'})
+        if r.get('exc'):
+            h2.violate(ID, 'solve_raised', detail='Solve of a second solver with %r raised %s: %s' % (plan['tree'], r['exc'], r.get('exc_msg')),
+                       exc=r['exc'], collapses=orc2.n_applied)
+        h2.finish()
+    finally:
+        run.on_callback = h._on_callback; run.pre_step = h._pre_step
     h.violations.extend(h2.violations)
 
 
